@@ -62,6 +62,14 @@ Keep(slots, E, R, sparse) ==
   ELSE SelectSeq(slots, LAMBDA t : LET m == ModLE(t, E) IN m % R \in {0, R - 1} \/ m >= E - 2 \/ m <= 1)
 \* after the first epoch group the same slots are asked again under a DIFFERENT entropy and then once more under the
 \* first one (an implementation must not key anything on the epoch or slot alone)
+\* t - k on little-endian bytes (callers make sure t >= k)
+RECURSIVE SubLE(_, _)
+SubLE(b, k) == IF k = 0 \/ b = <<>> THEN b
+               ELSE LET d == b[1] - (k % 256) IN
+                    IF d >= 0 THEN <<d>> \o SubLE(Tail(b), k \div 256) ELSE <<d + 256>> \o SubLE(Tail(b), (k \div 256) + 1)
+\* for every slot t the slot t - R of the previous rotation (what G* is computed for), <<>> when t < R
+Stars(slots, R) == [i \in 1..Len(slots) |-> LET t == slots[i] IN
+                      IF t[3] = 0 /\ t[4] = 0 /\ t[1] + 256 * t[2] < R THEN <<>> ELSE SubLE(t, R)]
 AssignCase(V, C, E, R, hi, lo, n, sparse, tag) ==
   LET gs == Groups(hi, lo, n, E, <<>>)
       Grp(g) == LET e == Ent(V + hi, g + tag) IN [e |-> e, queries |-> HashQueries(e, V), slots |-> Keep(gs[g], E, R, sparse)]
@@ -70,8 +78,9 @@ AssignCase(V, C, E, R, hi, lo, n, sparse, tag) ==
       e2 == Ent(V + hi, 50 + tag)
       alt == [e |-> e2, queries |-> HashQueries(e2, V), slots |-> SubSeq(first, 1, Min2(3, Len(first)))]
       back == [e |-> main[1].e, queries |-> main[1].queries, slots |-> SubSeq(first, 1, Min2(2, Len(first)))]
+      eps == <<main[1], alt, back>> \o SubSeq(main, 2, Len(main))
   IN [kind |-> "assign", V |-> V, C |-> C, E |-> E, R |-> R, tag |-> tag,
-      epochs |-> <<main[1], alt, back>> \o SubSeq(main, 2, Len(main))]
+      epochs |-> [g \in 1..Len(eps) |-> [e |-> eps[g].e, queries |-> eps[g].queries, slots |-> eps[g].slots, stars |-> Stars(eps[g].slots, R)]]]
 AssignCases ==
   IF Thorough THEN
     {AssignCase(6, 2, 12, 4, hi, 0, 36 + 5, FALSE, 1) : hi \in {0, 32767, 32768, 65535}}
